@@ -77,22 +77,40 @@ def rule_ops(ctx):
         else:
             rr.ok('%r is Ranges.%s (%s) on unevaluated references' % (
                 key, dunder, what), reg.site)
-    # union concatenates, no dedup
+    # union concatenates self's areas then other's, no dedup, no reordering
     orf = Rg.methods.get('__or__')
     rr.instances += 1
-    if orf is not None and any(
-            'self.ranges + other.ranges' in norm_src(n) for n in own_nodes(orf)
-            if isinstance(n, ast.Call)) and not any(
-            isinstance(n, ast.Call) and call_name(n) in ('set', 'simplify',
-                                                         'unique')
-            for n in own_nodes(orf)):
+    verdict = None
+    if orf is not None:
+        E = ctx.effects
+        me, you = orf.params[0], orf.params[1]
+        for n in own_nodes(orf):
+            if isinstance(n, ast.BinOp) and isinstance(n.op, ast.Add) and \
+                    isinstance(n.left, ast.Attribute) and isinstance(
+                    n.right, ast.Attribute) and n.left.attr == 'ranges' and \
+                    n.right.attr == 'ranges':
+                st = E.state_at(orf, n) or {}
+                la = E.alias2(orf, n.left.value, st)[0]
+                ra = E.alias2(orf, n.right.value, st)[0]
+                if la == {me} and ra == {you}:
+                    verdict = 'ok'
+                else:
+                    verdict = 'the concatenated operands may be %s then %s' % (
+                        sorted(la), sorted(ra))
+        dedup = any(isinstance(n, ast.Call) and call_name(n) in (
+            'set', 'simplify', 'unique', '_merge') for n in own_nodes(orf))
+        if dedup:
+            verdict = 'the result is de-duplicated/merged'
+    if verdict == 'ok':
         rr.ok('union keeps every operand area in order (self.ranges + '
               'other.ranges, no de-duplication)', RANGES)
     else:
         rr.fail(key_of(orf, 'union not a concatenation') if orf else
                 '%s::Ranges::__or__ missing' % RANGES,
-                'Ranges.__or__ no longer concatenates the operand areas in '
-                'order: overlapping cells are no longer counted once per area',
+                'Ranges.__or__ no longer concatenates the areas of the left '
+                'operand followed by those of the right operand (%s): areas '
+                'are reordered or overlapping cells are no longer counted once '
+                'per area' % (verdict or 'no `a.ranges + b.ranges` found'),
                 file=RANGES, function='Ranges.__or__',
                 line=orf.lineno if orf else 1)
     # empty -> #NULL!
